@@ -6,7 +6,8 @@
     1. `json.Unmarshal` of the whole document into `policyJSON` (nested `nodeJSON.UnmarshalJSON` with
        `DisallowUnknownFields` and the unknown-key-is-extension fallback) — `decodeNodeF`, result `NJ`;
     2. `ToNode` / `To…ScopeNode` over the decoded structs — `nodeToExpr`, `scopeTo…`.
-  All phase-1 errors precede all phase-2 errors and panics, hence the intermediate type.
+  All phase-1 errors precede all phase-2 errors, hence the intermediate type.  (Phase 2 used to panic on a nil
+  record entry; since the repair no function of this model returns `.panic`.)
 
   Facts about `encoding/json` that the phase-1 model relies on (Go 1.23, decode.go):
     * object keys match struct fields case-insensitively (`foldStr`);
@@ -65,13 +66,18 @@ def bytesToString (bs : List UInt8) : String :=
 
 def bytesValid (bs : List UInt8) : Bool := (String.fromUTF8? (ByteArray.mk bs.toArray)).isSome
 
-/-- `Pattern.MarshalJSON` -/
-def patternToJ : Pattern → List J
+/-- the loop of `Pattern.MarshalJSON` over the components -/
+def patternItemsToJ : Pattern → List J
   | [] => []
   | c :: rest =>
     (if c.wildcard then [J.str "Wildcard"] else [])
     ++ (if !c.wildcard || !c.literal.isEmpty then [J.obj [("Literal", .str (bytesToString c.literal))]] else [])
-    ++ patternToJ rest
+    ++ patternItemsToJ rest
+
+/-- `Pattern.MarshalJSON`: a pattern without components (`NewPattern()`, the zero `Pattern`) is written as the
+    empty literal `[{"Literal":""}]` — `[]` would be refused by `Pattern.UnmarshalJSON` -/
+def patternToJ (p : Pattern) : List J :=
+  if p.isEmpty then [J.obj [("Literal", .str "")]] else patternItemsToJ p
 
 /-- one step of `types.NewPattern` (components kept in reverse) -/
 def newPatternStep (acc : List PatComp) (c : Option String) : List PatComp :=
@@ -331,6 +337,9 @@ def decodeNode (j : J) : R NJ := decodeNodeF (j.depth + 1) j
 
 /-! ## Phase 2: `ToNode` -/
 
+/-- `extensions.ExtMap[name].IsMethod` (regenerated table) -/
+def extIsMethod (name : String) : Bool := Facts.extMap.any (fun x => x.1 == name && x.2.2)
+
 /-- combine the outcomes of the entries of a `Record` literal (Go iterates the map in random order and stops
     at the first error or nil entry) -/
 def errOf (r : String × R Expr) : Option JErr := match r.2 with | .error e => some e | .ok _ => none
@@ -341,7 +350,6 @@ def combineRecord (rs : List (String × R Expr)) : R (List (String × Expr)) :=
   if errs.isEmpty then .ok (rs.filterMap okOf)
   else if errs.any (· == .unmodelled) then .error .unmodelled
   else if errs.all (· == .reject) then .error .reject
-  else if errs.all (· == .panic) then .error .panic
   else .error .unmodelled
 
 mutual
@@ -375,16 +383,17 @@ def nodesToExprs : List NJ → R (List Expr)
   | n :: ns => match nodeToExpr n with
     | .error e => .error e
     | .ok e => match nodesToExprs ns with | .ok es => .ok (e :: es) | .error x => .error x
-/-- `extensionJSON.ToNode`: exactly one entry, a known extension name -/
+/-- `extensionJSON.ToNode`: exactly one entry, a known extension name, and a method has its receiver -/
 def extToExpr : List (String × List NJ) → R Expr
   | [(name, args)] =>
     if Facts.extMap.any (fun x => x.1 == name) then
-      match nodesToExprs args with | .ok es => .ok (.call name es) | .error e => .error e
+      if extIsMethod name && args.isEmpty then .error .reject          -- "extension method … is missing its receiver"
+      else match nodesToExprs args with | .ok es => .ok (.call name es) | .error e => .error e
     else .error .reject
   | _ => .error .reject
 def recordToExprs : List (String × Option NJ) → List (String × R Expr)
   | [] => []
-  | (k, none) :: rest => (k, .error .panic) :: recordToExprs rest      -- nil `*nodeJSON`: `v.ToNode()` dereferences nil
+  | (k, none) :: rest => (k, .error .reject) :: recordToExprs rest     -- nil `*nodeJSON`: "missing value for key"
   | (k, some n) :: rest => (k, nodeToExpr n) :: recordToExprs rest
 end
 
@@ -519,14 +528,14 @@ def fromJ (j : J) : R Policy :=
   | _ => .error .reject      -- null: effect "" ⇒ unknown effect; other kinds: type error
 
 /-- an entry of `staticPolicies` (`map[string]*Policy`): a non-null entry goes through `Policy.UnmarshalJSON`
-    during `json.Unmarshal` (entries in key order, the first error or panic wins); `null` leaves a nil `*Policy` -/
+    during `json.Unmarshal` (entries in key order, the first error wins); `null` leaves a nil `*Policy` -/
 def setEntry (x : J) : R (Option Policy) :=
   match x with | .null => .ok none | _ => (fromJ x).map some
 
 def entryPolicy (kv : String × Option Policy) : Option (PolicyID × Policy) := kv.2.map (fun p => (kv.1, p))
 
-/-- `PolicySet.UnmarshalJSON`: ids are the keys of `staticPolicies`; a nil `*Policy` is dereferenced by
-    `newPolicy` only after `json.Unmarshal` has succeeded -/
+/-- `PolicySet.UnmarshalJSON`: ids are the keys of `staticPolicies`; a nil `*Policy` is refused with an error
+    (before anything is compiled), but only after `json.Unmarshal` of the whole document has succeeded -/
 def setFromJ (j : J) : R (List (PolicyID × Policy)) :=
   match j with
   | .null => .ok []
@@ -537,21 +546,25 @@ def setFromJ (j : J) : R (List (PolicyID × Policy)) :=
     | .one (.obj ps) =>
       match mapKVR setEntry ps with
       | .error e => .error e
-      | .ok es => if es.any (fun kv => kv.2.isNone) then .error .panic else .ok (es.filterMap entryPolicy)
+      | .ok es => if es.any (fun kv => kv.2.isNone) then .error .reject else .ok (es.filterMap entryPolicy)
     | .one _ => .error .reject
   | _ => .error .reject
 
 /-! ## The identifications C09 allows, and the fragment of policies the JSON format can carry -/
 
-/-- the components `Pattern.MarshalJSON` writes, as `Pattern.UnmarshalJSON` hands them to `NewPattern` -/
-def patComps : Pattern → List (Option String)
+def patItemComps : Pattern → List (Option String)
   | [] => []
   | c :: rest =>
     (if c.wildcard then [none] else [])
     ++ (if !c.wildcard || !c.literal.isEmpty then [some (bytesToString c.literal)] else [])
-    ++ patComps rest
+    ++ patItemComps rest
 
-/-- a pattern re-built by `NewPattern` (adjacent literals merged, a wildcard after an empty literal dropped) -/
+/-- the components `Pattern.MarshalJSON` writes, as `Pattern.UnmarshalJSON` hands them to `NewPattern`
+    (the empty pattern is written as one empty literal) -/
+def patComps (p : Pattern) : List (Option String) := if p.isEmpty then [some ""] else patItemComps p
+
+/-- a pattern re-built by `NewPattern` (adjacent literals merged, a wildcard after an empty literal dropped; the
+    pattern without components becomes the single empty literal, which matches the same strings) -/
 def normPattern (p : Pattern) : Pattern := newPattern (patComps p)
 
 mutual
@@ -599,8 +612,8 @@ def validLiteral (bs : List UInt8) : Bool := (bytesToString bs).toUTF8.toList ==
 
 mutual
 /-- expressions the JSON format can carry: literal values inside the proved fragment of C13, extension calls of
-    known functions only (the decoder refuses other names), `like` patterns with at least one component
-    (`"pattern":[]` is refused by the decoder — finding like-empty-pattern) and valid UTF-8 literals, record
+    known functions only (the decoder refuses other names) where a method has its receiver (the decoder refuses
+    `{"lessThan":[]}`; such a call can only be built programmatically), `like` patterns with valid UTF-8 literals, record
     literals without duplicate keys (a duplicate is dropped by the encoder; the restriction is only needed for the
     fuel bound of the decoder model) -/
 def renderableE : Expr → Bool
@@ -613,12 +626,12 @@ def renderableE : Expr → Bool
   | .ite c t e => renderableE c && renderableE t && renderableE e
   | .access e _ => renderableE e
   | .has e _ => renderableE e
-  | .like e p => renderableE e && !p.isEmpty && p.all (fun c => validLiteral c.literal)
+  | .like e p => renderableE e && p.all (fun c => validLiteral c.literal)
   | .is e _ => renderableE e
   | .isIn e _ r => renderableE e && renderableE r
   | .set es => renderableEs es
   | .record kes => renderableKEs kes && keysDistinct kes
-  | .call fn args => Facts.extMap.any (fun x => x.1 == fn) && renderableEs args
+  | .call fn args => (Facts.extMap.any (fun x => x.1 == fn) && !(extIsMethod fn && args.isEmpty)) && renderableEs args
 def renderableEs : List Expr → Bool
   | [] => true
   | e :: es => renderableE e && renderableEs es
